@@ -172,6 +172,8 @@ func c07Shape3(r *Rng, lat *lattice3, bb sdf.Box3, family int) (func(p v3.Vec) f
 	}
 }
 
+var c07Gate = newGate(3_000_000) // sum of cells^3 in flight: the unpruned render keeps every node in the renderer's cache
+
 type latKey3 struct {
 	bb    sdf.Box3
 	cells int
@@ -218,6 +220,7 @@ func c07Run3(c *Ctx, i int, depths map[string]bool) {
 	ctr := v3.Vec{X: rb.R(-2, 2) * scale, Y: rb.R(-2, 2) * scale, Z: rb.R(-2, 2) * scale}
 	bb := sdf.Box3{Min: ctr.Sub(half), Max: ctr.Add(half)}
 	rd := render.NewMarchingCubesOctree(cells)
+	defer c07Gate.enter(int64(cells) * int64(cells) * int64(cells))()
 	lat, err := cachedLattice3(rd, bb, cells)
 	if err != nil {
 		c.Inconclusive("learn3: " + err.Error())
